@@ -165,12 +165,22 @@ ASBUILT = {
   non-inplace `pair_simplify` / `loop_simplify`, `gauge_local` losing the stripped exponent, `tensor_make_single_bond`
   naming; known: `squeeze()` default, hyper index + pairwise sweeps, `canonize_around` through a hyper index, bond
   growth with `reduced=False, cutoff=0` (§5).""",
-"C12": """* **As built** (`props/c12.py`, written by a sub-agent and reviewed; 241 quick obligations, ≈ 35 s): 2D boundary
+"C12": """* **As built** (`props/c12.py`, written by a sub-agent and reviewed; 245 quick obligations ≈ 35 s, 2 426 thorough
+  obligations ≈ 250 s — ≈ 800 certified modulo the stub contracts, ≈ 290 plain polynomial identities, ≈ 700 shape-only
+  bond-cap runs, ≈ 600 numeric-only cells): 2D boundary
   contraction from every side / sequence / mode / option on 3×2 … 4×3 lattices (3×3 with every bond 2 in the thorough
   tier), direction wrappers, layered ⟨ψ|ψ⟩ networks, row / column / plaquette environments as sandwich identities,
   `contract_compressed` along **every** connected contraction path of a 4-ring, `contract_around`, `compress_between`
   gauge choices, the arbitrary-geometry compressors, 3D 3×2×2 lattices, periodic lattices; bond-cap goals after every step
   of a step-by-step sweep with contract-free stubs (shapes only). Projector-type schemes: product-cut symbolic instances
   + certified building blocks + numeric cross-run (see §4). Fixed: `TensorNetwork3D.contract_boundary_from(inplace=False)`
-  returning `None` (§5).""",
+  returning `None` (§5). Observed and left outside the claim: on lattices periodic *along* the boundary line the `mps` /
+  `direct` cores never compress the periodic bond itself (χ = 3 on a 4×4 lattice periodic in y leaves it at 8); the
+  property speaks of "every bond it has compressed", so this is not a violation, and the cap goals on periodic lattices
+  are restricted to the bonds the scheme compresses. Documented rejections excluded from the cells:
+  `contract_ctmrg(mode='projector2d')` (TypeError), full-bond on lattices periodic along the line (ValueError), zipup /
+  superorthogonal on a single-site boundary line, `dm` on a line without outer labels (LinAlgError). A mutation round by
+  the building agent (13 one-line regressions through `QV_REPO`) was caught 13/13, 12 in the quick tier; the three
+  independently seeded changes of §7 were caught 2/3 at first (the third needed the exponent to accumulate over three
+  steps — depth-4 `equalize_norms` cells added).""",
 }
